@@ -220,6 +220,32 @@ def _r6src(n):
     return "/tmp/mut6/%s/_out/%s" % (n[2:4], n[4])
 SRC_OVERRIDE.update({n: _r6src(n) for n in NEEDS if n.startswith("R6")})
 
+# round 7: ~165 earlier ideas; agents were pointed at what was still outside (trait methods and conversions, generic
+# parameters, in-place vs by-value variants, long-lived helper objects, value-dependent Option/Result/bool); ids R7m<n><A|B|C>
+NEEDS.update({
+ "R7m1A": ("C01", "projective PartialEq gains a hand-written ne() whose y test is not cross-multiplied", "the != operator itself (assert_ne!/== do not call it) on the same point in two Jacobian representations"),
+ "R7m1B": ("C02", "projective mul_assign reimplemented on the wNAF routines (window 4)", "the eight odd scalars in [2^256-15, 2^256-1]: the digit removal wraps past 2^256"),
+ "R7m1C": ("C10", "precomp_256 identity fast path clears the whole slice it was handed", "an identity point at a non-final index, rest-of-buffer slices, later tables already built"),
+ "R7m2A": ("C09", "Fq12::square shortcut for c0 == 0 returns b^2 instead of b^2 v", "elements g*w (c0 = 0)"),
+ "R7m2B": ("C12", "Fq6::is_zero tests c1 twice + Fq12::inverse returns None early when is_zero()", "non-zero f whose two Fq6 halves are multiples of v^2: inverse / final_exponentiation report failure"),
+ "R7m2C": ("C09", "Fq6::square shortcut for c2 == 0 squares c0 in place before the cross term", "a + b v with b != 0 and a not in {0, 1}"),
+ "R7m3A": ("C04", "G1 unchecked compressed decoder selects the root against a mistyped (q-1)/2 constant (30720 too small)", "x whose smaller root lies within 30720 below (q-1)/2 (constructible only as cube roots of y^2-4: points outside the subgroup, unchecked decoder)"),
+ "R7m3B": ("C19", "G2 stream readers pre-check y.c1 / y.c0 with < 0x1a01", "an uncompressed G2 point whose y component starts with 1a 01 (found by search)"),
+ "R7m3C": ("C04", "unchecked uncompressed decoders reject y = 0 as NotOnCurve before the range checks", "an uncompressed string with y = 0 on the unchecked decoder"),
+ "R7m4A": ("C13", "XMD b_0 input staged in a 1024-byte buffer whose fit test forgets the tag-length byte", "msg.len() + dst.len() == 1021 exactly"),
+ "R7m4B": ("C13", "hash_to_field asserts count <= 255", "256 or more elements where legal (Fr with SHA-512, any field with an XOF)"),
+ "R7m4C": ("C13", "XMD keeps its blocks in [0u8; 8192]", "a wide digest with a large legal length (SHA-512: 8193..16320 bytes)"),
+ "R7m5A": ("C20", "Wnaf::base keeps the staged table when the new base == the old one (group equality)", "the same point staged again in another Jacobian representation: right point, history-dependent coordinates"),
+ "R7m5B": ("C20", "batch_normalization rewritten as a recursion whose depth is the number of non-normalised entries", "about 3500+ G2 (5000+ G1) entries on a thread with the default 2 MiB stack: stack overflow"),
+ "R7m5C": ("C20", "Pippenger bucket vector pooled in a thread_local accessed with LocalKey::with", "an MSM called from a caller's thread-local destructor registered before the thread's first MSM: abort"),
+ "R7m6A": ("C01", "projective eq loses its other.is_zero() guard", "the all-zero triple (0,0,0) - which eval_iso itself returns for the identity - as right-hand operand: P == O is true"),
+ "R7m6B": ("C13", "hash_to_field asserts len_in_bytes <= 255*32", "more than 8160 bytes with SHA-512 / SHA-384 / SHAKE"),
+ "R7m6C": ("C01", "default sub_assign_mixed rewritten with an identity shortcut that forgets the negation", "identity minuend: O - Q returns Q"),
+})
+def _r7src(n):
+    return "/tmp/mut7/%s/_out/%s" % (n[2:4], n[4])
+SRC_OVERRIDE.update({n: _r7src(n) for n in NEEDS if n.startswith("R7")})
+
 
 def first_line(path, pat):
     try:
